@@ -171,6 +171,9 @@ func checkC08(c *Ctx) {
 		r := c.Rng("shape", i)
 		rk := msRenderers[i%2]
 		cells := r.IR(5, c.Pick(40, 120))
+		if i%16 == 3 {
+			cells = r.IR(150, 320) // several buffer flushes per contour
+		}
 		kind := r.I(5)
 		var s sdf.SDF2
 		var desc string
@@ -211,7 +214,17 @@ func checkC08(c *Ctx) {
 			return
 		}
 		rec := newRecSDF2(s)
-		ls := collectLines(rd, rec)
+		var ls []*sdf.Line2
+		if i%4 == 3 { // buffered caller-owned channel, drained after the renderer returned
+			ch := make(chan []*sdf.Line2, 1<<16)
+			rd.Render(rec, sdf.NewLine2Buffer(ch))
+			close(ch)
+			for b := range ch {
+				ls = append(ls, b...)
+			}
+		} else {
+			ls = collectLines(rd, rec)
+		}
 		c.Eval(1)
 		if len(ls) == 0 {
 			return
